@@ -56,6 +56,11 @@ def shapes_for(config):
         variant = list(base)
         variant[column] = base[column] + " "
         shapes.append(("ok0-key-with-trailing-blank", variant))
+    if config["preset"] == "delimited" and "name" in config["fields"]:
+        # an accepted cell holding a line break of another style than the declared line delimiter
+        row = list(dict(shapes)["ok1"])
+        row[config["fields"].index("name")] = "a\r\n"
+        shapes.append(("ok1-name-ends-in-crlf", row))
     return [s for s in shapes if s[0] != "empty"] + [("empty", [])]
 
 
@@ -130,7 +135,7 @@ def judge(case, part):
                 parsed = list(csv.reader(io.StringIO(body, newline=""), delimiter=",", quotechar='"', doublequote=True, strict=True))
                 if parsed != [stored] and not (stored == [] and parsed == []):
                     part.fail(tag % "delimited-row-does-not-parse-back", narrowed, stored, parsed)
-                if "\n" in body or "\r" in body:
+                if ("\n" in body or "\r" in body) and not any("\n" in c or "\r" in c for c in stored):
                     part.fail(tag % "stray-line-break-in-row", narrowed, stored, delta)
         if number > config["header"]:
             expected_back.append(stored)
